@@ -1411,8 +1411,7 @@ def pydField (acc : Acc) (data : Option CState) (name : Name) (ann : Ann) (t : T
 # _tokenize_string_expr and _assert_token_list_valid  ->  Generated/TokLoop.lean
 # =====================================================================================================================
 #
-# Leaves: `_span_to_tok(character)` = `charTok c` (the three enums' value maps, tied to the source by Tables.operator_symbols);
-# `_span_to_tok(span) or _span_to_str_or_int(span)` = `spanTok span`; a token is an `int` / `str` / operator / group token /
+# `_span_to_tok` and `_span_to_str_or_int` are compiled too (over the regenerated value tables of the three enums). Leaves: a token is an `int` / `str` / operator / group token /
 # specifier exactly when the model token is `.int` / `.str` / `.bin`,`.fn` / `.lp`,`.rp`,`.comma` / `.eq`.
 
 TOK_HEADER = """/-- enum member name of an operator token (fixed text) -/
@@ -1429,6 +1428,80 @@ def tokIn (set : List String) (t : Tok) : Bool :=
 def _root_.Dltype.Tok.isStrOrInt : Tok → Bool | .str _ => true | .int _ => true | _ => false
 def _root_.Dltype.Tok.isStr : Tok → Bool | .str _ => true | _ => false
 def _root_.Dltype.Tok.isGroup : Tok → Bool | .lp => true | .rp => true | .comma => true | _ => false
+
+"""
+
+
+SPAN_ENUMS = {"_DLTypeOperator": "operatorValues", "_DLTypeSpecifier": "specifierValues", "_DLTypeGroupToken": "groupValues"}
+
+
+def _enum_table(mod, cls: str) -> str:
+    """`NAME = "value"` members of an enum class, in source order, values as character lists"""
+    node = next((n for n in mod.body if isinstance(n, ast.ClassDef) and n.name == cls), None)
+    if node is None:
+        raise TErr(f"enum {cls} not found")
+    items = []
+    for st in node.body:
+        if isinstance(st, ast.Assign) and len(st.targets) == 1 and isinstance(st.targets[0], ast.Name) and isinstance(st.value, ast.Constant) and isinstance(st.value.value, str):
+            v = st.value.value
+            if not all(32 < ord(ch) < 127 and ch not in "'\\" for ch in v):
+                raise TErr(f"enum {cls}.{st.targets[0].id}: value {v!r}")
+            items.append(f"({_lstr(st.targets[0].id)}, [" + ", ".join(f"'{ch}'" for ch in v) + "])")
+        elif isinstance(st, ast.Assign):
+            raise TErr(f"enum {cls}: member `{_src(st)[:60]}`")
+    return "[" + ", ".join(items) + "]"
+
+
+def _gen_span_helpers(fn, mod) -> str:
+    """`_span_to_tok` (the three value maps and the order of its `or` chain) and `_span_to_str_or_int`"""
+    f = fn("_span_to_tok")
+    if [a.arg for a in f.args.args] != ["character"]:
+        raise TErr("_span_to_tok: parameters")
+    b = _strip(f.body)
+    loc = {}
+    for s in b[:-1]:
+        v = s.value if isinstance(s, ast.Assign) and len(s.targets) == 1 and isinstance(s.targets[0], ast.Name) else None
+        if isinstance(v, ast.Call) and _src(v.func) == "typing.cast" and len(v.args) == 2:
+            v = v.args[1]
+        ok = isinstance(v, ast.Call) and isinstance(v.func, ast.Attribute) and v.func.attr == "get" and [_src(a) for a in v.args] == ["character"] and not v.keywords \
+            and isinstance(v.func.value, ast.Attribute) and v.func.value.attr == "_value2member_map_" and _src(v.func.value.value) in SPAN_ENUMS
+        if not ok:
+            raise TErr(f"_span_to_tok: statement `{_src(s)[:100]}`")
+        loc[s.targets[0].id] = f"((memberOf {SPAN_ENUMS[_src(v.func.value.value)]} character).bind tokOfMember)"
+    r = b[-1]
+    if not (isinstance(r, ast.Return) and isinstance(r.value, ast.BoolOp) and isinstance(r.value.op, ast.Or) and all(isinstance(x, ast.Name) and x.id in loc for x in r.value.values)):
+        raise TErr(f"_span_to_tok: `{_src(r)[:100]}`")
+    chain = " <|> ".join(loc[x.id] for x in r.value.values)
+    g = fn("_span_to_str_or_int")
+    gb = _strip(g.body)
+    if [a.arg for a in g.args.args] != ["span"] or [_src(x) for x in gb] != ["if span.isnumeric():\n    return int(span)", "return span"]:
+        raise TErr("_span_to_str_or_int: " + " ; ".join(_src(x)[:60] for x in gb))
+    tables = "".join(f"/-- members of `{c}` with their values -/\ndef {t} : List (String × List Char) := {_enum_table(mod, c)}\n" for c, t in SPAN_ENUMS.items())
+    return tables + f"""
+/-- `Enum._value2member_map_.get(s)`: the name of the member whose value is `s` -/
+def memberOf (enum : List (String × List Char)) (s : List Char) : Option String :=
+  (enum.find? (fun p => p.2 == s)).map (·.1)
+
+/-- the model's token for an enum member (fixed text: the naming of `Tok`) -/
+def tokOfMember : String → Option Tok
+  | "ADD" => some (.bin .add) | "SUB" => some (.bin .sub) | "MUL" => some (.bin .mul) | "EXP" => some (.bin .exp) | "DIV" => some (.bin .div)
+  | "MIN" => some (.fn .min) | "MAX" => some (.fn .max) | "ISQRT" => some (.fn .isqrt)
+  | "EQUALS" => some .eq | "LPAREN" => some .lp | "RPAREN" => some .rp | "COMMA" => some .comma
+  | _ => none
+
+/-- `_span_to_tok(character)`: enum members are truthy, so `a or b or c` is the first that is not None -/
+def spanToTok (character : List Char) : Option Tok :=
+  {chain}
+
+/-- `_span_to_str_or_int(span)` (`str.isnumeric` on printable ASCII: non-empty and all digits) -/
+def spanToStrOrInt (span : List Char) : Tok :=
+  if !span.isEmpty && span.all isDigit then .int (digitsToNat span) else .str span
+
+/-- `_span_to_tok(current_span) or _span_to_str_or_int(current_span)` -/
+def spanFlush (current_span : List Char) : Tok :=
+  match spanToTok current_span with
+  | some t => t
+  | none => spanToStrOrInt current_span
 
 """
 
@@ -1569,12 +1642,13 @@ def tokensValid (ts : List Tok) : Bool :=
     for c, r in pro:
         out += f"  if {c} then {r} else\n"
     out += f"  countResult (countLoop ts {ctr[names[0]]} {ctr[names[1]]})\n\n"
+    out += _gen_span_helpers(fn, mod)
     out += """/-- one iteration of the character loop of `_tokenize_string_expr`: the token list so far and the current span -/
 def tokStep (character : Char) (return_list : List Tok) (current_span : List Char) : Except ParseErr (List Tok × List Char) :=
   if character = ' ' then .error .syntax else
-  match charTok character with
+  match spanToTok [character] with
   | some token =>
-    let return_list := if !current_span.isEmpty then return_list ++ [spanTok current_span] else return_list
+    let return_list := if !current_span.isEmpty then return_list ++ [spanFlush current_span] else return_list
     let current_span : List Char := []
     .ok (return_list ++ [token], current_span)
   | none => .ok (return_list, current_span ++ [character])
@@ -1592,7 +1666,7 @@ def tokenize (expression : List Char) : Except ParseErr (List Tok) :=
   match tokLoop expression [] [] with
   | .error e => .error e
   | .ok (return_list, current_span) =>
-    let return_list := if !current_span.isEmpty then return_list ++ [spanTok current_span] else return_list
+    let return_list := if !current_span.isEmpty then return_list ++ [spanFlush current_span] else return_list
     if tokensValid return_list then .ok return_list else .error .syntax
 
 end Dltype.Gen
